@@ -1,7 +1,1363 @@
-//! C04 — TODO
-use mc_core::Ctx;
+//! C04 — certificates are tamper-evident and survive the wire unchanged.
+//!
+//! Four exhaustive sweeps, all on the real code (`Certificate::try_compute_hash`,
+//! `ProtocolMessage::compute_hash`, `TryFrom<Certificate> for CertificateMessage` and back,
+//! `serde_json`, `MithrilCertificateVerifier::verify_certificate`):
+//!
+//! * **tamper**: every certificate of an explicit grammar x every single-field change from per-field
+//!   alphabets: the hash must change when the changed field is one the certificate hash is documented
+//!   to cover (sub-unit changes of `phi_f` are evaluated but nothing is required of them);
+//! * **pm**: every protocol message over small key subsets and an honest value alphabet, bucketed by
+//!   digest: two different messages never share a digest;
+//! * **wire**: every grammar certificate (and every certificate of a really signed chain, plus single
+//!   field tamperings of those) -> `CertificateMessage` -> JSON text in many re-serialisations ->
+//!   message -> certificate: same hash (carried and recomputed), same signed message, same
+//!   `verify_certificate` outcome;
+//! * **phi**: every rounding boundary of the U8F24 representation of `phi_f` in [0,1) and its f64
+//!   neighbours through `ProtocolParameters` -> JSON -> back: same parameter hash.
 
-pub fn run(_ctx: &Ctx) -> ! {
-    eprintln!("C04: not implemented");
-    std::process::exit(2)
+use std::collections::HashMap;
+use std::sync::Arc;
+
+use chrono::{DateTime, NaiveDate, TimeDelta, Utc};
+use mc_core::{Ctx, Report, catch, par_map};
+use mithril_common::certificate_chain::{CertificateVerifier, MithrilCertificateVerifier};
+use mithril_common::crypto_helper::{
+    GenesisEd25519Signature, GenesisVerifier, ProtocolAggregateVerificationKeyForConcatenation,
+    ProtocolMultiSignature,
+};
+use mithril_common::entities::{
+    BlockNumber, BlockNumberOffset, CardanoDbBeacon, Certificate, CertificateMetadata,
+    CertificateSignature, Epoch, ProtocolMessage, ProtocolMessagePartKey, ProtocolParameters,
+    SignedEntityType, StakeDistributionParty,
+};
+use mithril_common::messages::CertificateMessage;
+use mithril_common::test::builder::CertificateChainBuilder;
+use mithril_common::test::double::FakeCertificaterRetriever;
+use serde_json::{Value, json};
+
+type Avk = ProtocolAggregateVerificationKeyForConcatenation;
+type MSig = ProtocolMultiSignature;
+type GSig = GenesisEd25519Signature;
+
+const UNIT: f64 = 1.0 / 16777216.0; // one unit of U8F24
+const H64A: &str = "9f86d081884c7d659a2feaa0c55ad015a3bf4f1b2b0b822cd15d6c15b0f00a08";
+const H64B: &str = "0a1b2c3d4e5f60718293a4b5c6d7e8f900112233445566778899aabbccddeeff";
+
+const PART_KEYS: [ProtocolMessagePartKey; 12] = [
+    ProtocolMessagePartKey::SnapshotDigest,
+    ProtocolMessagePartKey::CardanoTransactionsMerkleRoot,
+    ProtocolMessagePartKey::CardanoBlocksTransactionsMerkleRoot,
+    ProtocolMessagePartKey::NextAggregateVerificationKey,
+    ProtocolMessagePartKey::NextProtocolParameters,
+    ProtocolMessagePartKey::CurrentEpoch,
+    ProtocolMessagePartKey::LatestBlockNumber,
+    ProtocolMessagePartKey::CardanoBlocksTransactionsBlockNumberOffset,
+    ProtocolMessagePartKey::CardanoStakeDistributionEpoch,
+    ProtocolMessagePartKey::CardanoStakeDistributionMerkleRoot,
+    ProtocolMessagePartKey::CardanoDatabaseMerkleRoot,
+    ProtocolMessagePartKey::NextSnarkAggregateVerificationKey,
+];
+
+// ------------------------------------------------------------------------------------------------
+// material: one really signed chain (genesis + 5 standard certificates, one per signed entity type)
+// and real keys / signatures taken from it
+// ------------------------------------------------------------------------------------------------
+
+struct Material {
+    /// latest -> genesis
+    chain: Vec<Certificate>,
+    genesis_verifier: GenesisVerifier,
+    avks: Vec<Avk>,
+    avk_alts: Vec<(String, Avk)>,
+    msigs: Vec<MSig>,
+    msig_alts: Vec<(String, MSig)>,
+    gsig: GSig,
+    gsig_alts: Vec<(String, GSig)>,
+}
+
+fn ts(n: i64) -> DateTime<Utc> {
+    DateTime::from_timestamp_nanos(n)
+}
+
+/// the timestamp as the property sees it: a 64-bit count of nanoseconds (None when not representable)
+fn ref_nanos(d: &DateTime<Utc>) -> Option<i64> {
+    let n = d.timestamp() as i128 * 1_000_000_000 + d.timestamp_subsec_nanos() as i128;
+    i64::try_from(n).ok()
+}
+
+fn set_variant(variant: usize, c: [u64; 3]) -> SignedEntityType {
+    match variant {
+        1 => SignedEntityType::MithrilStakeDistribution(Epoch(c[0])),
+        2 => SignedEntityType::CardanoStakeDistribution(Epoch(c[0])),
+        3 => SignedEntityType::CardanoDatabase(CardanoDbBeacon::new(c[0], c[1])),
+        4 => SignedEntityType::CardanoTransactions(Epoch(c[0]), BlockNumber(c[1])),
+        _ => SignedEntityType::CardanoBlocksTransactions(Epoch(c[0]), BlockNumber(c[1]), BlockNumberOffset(c[2])),
+    }
+}
+
+fn set_components(s: &SignedEntityType) -> (usize, Vec<u64>) {
+    match s {
+        SignedEntityType::MithrilStakeDistribution(e) => (1, vec![**e]),
+        SignedEntityType::CardanoStakeDistribution(e) => (2, vec![**e]),
+        SignedEntityType::CardanoDatabase(b) => (3, vec![*b.epoch, b.immutable_file_number]),
+        SignedEntityType::CardanoTransactions(e, b) => (4, vec![**e, **b]),
+        SignedEntityType::CardanoBlocksTransactions(e, b, o) => (5, vec![**e, **b, **o]),
+    }
+}
+
+fn hex_json_edit(hex_json: &str, f: impl FnOnce(&mut Value)) -> String {
+    let bytes = hex::decode(hex_json).expect("json hex");
+    let mut v: Value = serde_json::from_slice(&bytes).expect("json inside json hex");
+    f(&mut v);
+    hex::encode(serde_json::to_string(&v).unwrap())
+}
+
+fn bump(v: &mut Value, d: i64) {
+    let n = v.as_u64().expect("number");
+    *v = json!(if d >= 0 { n.wrapping_add(d as u64) } else { n.wrapping_sub((-d) as u64) });
+}
+
+fn build_material() -> Material {
+    let params = ProtocolParameters::new(2, 20, 0.65);
+    let chain = CertificateChainBuilder::new()
+        .with_total_certificates(6)
+        .with_certificates_per_epoch(2)
+        .with_protocol_parameters(params.into())
+        .with_total_signers_per_epoch_processor(&|e| 2 + (*e as usize % 2))
+        // the genesis producer stamps the wall clock: replace it (hashes are recomputed afterwards)
+        .with_genesis_certificate_processor(&|mut c, _, _| {
+            c.metadata.initiated_at = ts(1_136_214_245_000_000_000);
+            c.metadata.sealed_at = ts(1_136_214_245_000_000_001);
+            c
+        })
+        .with_standard_certificate_processor(&|mut c, cx| {
+            let i = cx.index_certificate as u64;
+            if let CertificateSignature::MultiSignature(_, sig) = c.signature.clone() {
+                let set = set_variant(((i - 1) % 5 + 1) as usize, [*cx.epoch, 100 + i, 15]);
+                c.signature = CertificateSignature::MultiSignature(set, sig);
+            }
+            c.metadata.initiated_at = ts(1_707_743_507_012_304_300 + i as i64 * 1_000_000_007);
+            c.metadata.sealed_at = ts(1_707_743_507_012_304_300 + i as i64 * 1_000_000_007 + 123_456_789);
+            c
+        })
+        .build();
+    let genesis_verifier = chain.genesis_verifier.clone();
+    let chain = chain.certificates_chained;
+
+    let mut avks: Vec<Avk> = vec![];
+    let mut msigs: Vec<MSig> = vec![];
+    let mut gsig = None;
+    for c in &chain {
+        if !avks.iter().any(|a| a.to_json_hex().unwrap() == c.aggregate_verification_key.to_json_hex().unwrap()) {
+            avks.push(c.aggregate_verification_key.clone());
+        }
+        match &c.signature {
+            CertificateSignature::MultiSignature(_, s) => msigs.push(s.clone()),
+            CertificateSignature::GenesisSignature(s) => gsig = Some(*s),
+        }
+    }
+    assert!(avks.len() >= 2 && msigs.len() >= 2);
+    let gsig = gsig.expect("genesis signature");
+
+    // single-field changes of a real aggregate verification key, through its own decoder
+    let a0 = avks[0].to_json_hex().unwrap();
+    let mut avk_alts = vec![("another real key".to_string(), avks[1].clone())];
+    let avk_edits: Vec<(&str, Box<dyn Fn(&mut Value)>)> = vec![
+        ("root[0]^1", Box::new(|v| { let b = v["mt_commitment"]["root"][0].as_u64().unwrap(); v["mt_commitment"]["root"][0] = json!(b ^ 1); })),
+        ("root[31]^128", Box::new(|v| { let b = v["mt_commitment"]["root"][31].as_u64().unwrap(); v["mt_commitment"]["root"][31] = json!(b ^ 128); })),
+        ("nr_leaves+1", Box::new(|v| bump(&mut v["mt_commitment"]["nr_leaves"], 1))),
+        ("nr_leaves-1", Box::new(|v| bump(&mut v["mt_commitment"]["nr_leaves"], -1))),
+        ("total_stake+1", Box::new(|v| bump(&mut v["total_stake"], 1))),
+        ("total_stake-1", Box::new(|v| bump(&mut v["total_stake"], -1))),
+        ("total_stake=2^64-1", Box::new(|v| v["total_stake"] = json!(u64::MAX))),
+        ("total_stake^2^32", Box::new(|v| { let b = v["total_stake"].as_u64().unwrap(); v["total_stake"] = json!(b ^ (1 << 32)); })),
+        ("root shortened", Box::new(|v| { v["mt_commitment"]["root"].as_array_mut().unwrap().pop(); })),
+    ];
+    for (name, f) in avk_edits {
+        let edited = hex_json_edit(&a0, f);
+        if let Ok(Ok(k)) = catch(|| Avk::from_json_hex(&edited)) {
+            avk_alts.push((name.to_string(), k));
+        }
+    }
+
+    // single-field changes of a real multi-signature, through its own decoder
+    let s0 = msigs[0].to_json_hex().unwrap();
+    let mut msig_alts = vec![("another real multi-signature".to_string(), msigs[1].clone())];
+    let msig_edits: Vec<(&str, Box<dyn Fn(&mut Value)>)> = vec![
+        ("first index +1", Box::new(|v| bump(&mut v["signatures"][0][0]["indexes"][0], 1))),
+        ("last index dropped", Box::new(|v| { v["signatures"][0][0]["indexes"].as_array_mut().unwrap().pop(); })),
+        ("signer_index+1", Box::new(|v| bump(&mut v["signatures"][0][0]["signer_index"], 1))),
+        ("claimed stake+1", Box::new(|v| bump(&mut v["signatures"][0][1][1], 1))),
+        ("batch path value[0][0]^1", Box::new(|v| { let b = v["batch_proof"]["values"][0][0].as_u64().unwrap(); v["batch_proof"]["values"][0][0] = json!(b ^ 1); })),
+        ("batch path index+1", Box::new(|v| bump(&mut v["batch_proof"]["indices"][0], 1))),
+        ("sigma of the other multi-signature", Box::new({
+            let other = msigs[1].to_json_hex().unwrap();
+            move |v| {
+                let o: Value = serde_json::from_slice(&hex::decode(&other).unwrap()).unwrap();
+                v["signatures"][0][0]["sigma"] = o["signatures"][0][0]["sigma"].clone();
+            }
+        })),
+    ];
+    for (name, f) in msig_edits {
+        let edited = hex_json_edit(&s0, f);
+        if edited == s0 {
+            continue;
+        }
+        if let Ok(Ok(k)) = catch(|| MSig::from_json_hex(&edited)) {
+            msig_alts.push((name.to_string(), k));
+        }
+    }
+
+    let g0 = gsig.to_bytes_hex().unwrap();
+    let mut gsig_alts = vec![];
+    for (name, pos, mask) in [("R byte 0 ^1", 0usize, 1u8), ("R byte 31 ^64", 31, 64), ("s byte 32 ^1", 32, 1), ("s byte 63 ^8", 63, 8)] {
+        let mut b = hex::decode(&g0).unwrap();
+        b[pos] ^= mask;
+        if let Ok(Ok(k)) = catch(|| GSig::from_bytes_hex(&hex::encode(&b))) {
+            gsig_alts.push((name.to_string(), k));
+        }
+    }
+    Material { chain, genesis_verifier, avks, avk_alts, msigs, msig_alts, gsig, gsig_alts }
+}
+
+// ------------------------------------------------------------------------------------------------
+// certificate grammar
+// ------------------------------------------------------------------------------------------------
+
+/// indices into the per-dimension alphabets below
+#[derive(Clone, Copy, Debug, PartialEq, Eq, Hash)]
+struct Spec {
+    kind: usize,    // 0 genesis, 1..=5 standard with that signed entity type
+    ext: usize,     // magnitude of every u64 (epoch, beacons, k, m, stakes)
+    signers: usize, // signer list shape
+    ts: usize,      // timestamps
+    pm: usize,      // protocol message shape
+    strs: usize,    // previous hash / network / version strings
+    phi: usize,     // phi_f
+}
+
+const N_KIND: usize = 6;
+const EXT: [u64; 5] = [5, 0, u64::MAX, 1 << 32, 1 << 63];
+const N_SIGNERS: usize = 4;
+const N_TS: usize = 7;
+const N_PM: usize = 3;
+const N_STRS: usize = 3;
+const PHI: [f64; 6] = [0.65, 0.2, 1.0, UNIT, 0.5 + UNIT / 2.0, 0.0];
+
+impl Spec {
+    fn to_json(self) -> Value {
+        json!([self.kind, self.ext, self.signers, self.ts, self.pm, self.strs, self.phi])
+    }
+    fn from_json(v: &Value) -> Spec {
+        let g = |i: usize| v[i].as_u64().unwrap_or(0) as usize;
+        Spec { kind: g(0) % N_KIND, ext: g(1) % EXT.len(), signers: g(2) % N_SIGNERS, ts: g(3) % N_TS, pm: g(4) % N_PM, strs: g(5) % N_STRS, phi: g(6) % PHI.len() }
+    }
+}
+
+fn leap_second() -> DateTime<Utc> {
+    // 2016-12-31T23:59:60.5Z, held by chrono as second 59 with 1.5e9 nanoseconds
+    NaiveDate::from_ymd_opt(2016, 12, 31).unwrap().and_hms_nano_opt(23, 59, 59, 1_500_000_000).unwrap().and_utc()
+}
+
+fn timestamps(i: usize) -> (DateTime<Utc>, DateTime<Utc>) {
+    match i {
+        0 => (ts(1_707_743_507_012_304_300), ts(1_707_743_607_000_000_001)), // sub-second parts
+        1 => (ts(0), ts(0)),                                                 // the epoch itself
+        2 => (ts(1), ts(2)),                                                 // 1 ns
+        3 => (ts(i64::MIN), ts(i64::MIN + 1)),                               // 1677-09-21
+        4 => (ts(i64::MAX - 1), ts(i64::MAX)),                               // 2262-04-11
+        5 => (ts(-1), ts(-1_000_000_001)),                                   // just before the epoch
+        _ => (leap_second(), ts(1_483_228_800_500_000_000)),                 // 23:59:60.5 and 00:00:00.5
+    }
+}
+
+fn signer_list(i: usize, x: u64) -> Vec<StakeDistributionParty> {
+    let p = |id: &str, stake: u64| StakeDistributionParty { party_id: id.to_string(), stake };
+    match i {
+        0 => vec![p("p", 1), p("pa", x), p("pab", 3)], // ids that are prefixes of one another
+        1 => vec![],
+        2 => vec![p("pool1mxyec46067n3querj9cxkk0g0zlag93pf3ya9vuyr3wgkq2e6t7", x)],
+        _ => vec![p("", x), p("x", 1), p("x", 1), p("\"x\\\u{e9}\u{1F600}\n", 0)],
+    }
+}
+
+fn strings(i: usize) -> (String, String, String) {
+    match i {
+        0 => (H64B.to_string(), "devnet".to_string(), "0.1.0".to_string()),
+        1 => (String::new(), String::new(), String::new()),
+        _ => ("previous\"hash\\/".to_string(), "t\u{e9}st-net \u{1F600}\n\t\u{0}\u{7f}".to_string(), "0.1.0+build/\u{3b1}".to_string()),
+    }
+}
+
+fn protocol_message(i: usize, x: u64, mat: &Material) -> ProtocolMessage {
+    let mut m = ProtocolMessage::new();
+    let avk_hex = mat.avks[1].to_json_hex().unwrap();
+    match i {
+        0 => {
+            m.set_message_part(ProtocolMessagePartKey::SnapshotDigest, H64A.to_string());
+            m.set_message_part(ProtocolMessagePartKey::NextAggregateVerificationKey, avk_hex);
+            m.set_message_part(ProtocolMessagePartKey::NextProtocolParameters, H64B.to_string());
+            m.set_message_part(ProtocolMessagePartKey::CurrentEpoch, x.to_string());
+        }
+        1 => {}
+        _ => {
+            for (n, k) in PART_KEYS.iter().enumerate() {
+                let v = match n % 4 {
+                    0 => H64A.to_string(),
+                    1 => x.wrapping_add(n as u64).to_string(),
+                    2 => avk_hex.clone(),
+                    _ => H64B[..(2 * n).min(64)].to_string(),
+                };
+                m.set_message_part(*k, v);
+            }
+        }
+    }
+    m
+}
+
+fn build(spec: Spec, mat: &Material) -> Certificate {
+    let x = EXT[spec.ext];
+    let (initiated_at, sealed_at) = timestamps(spec.ts);
+    let (previous_hash, network, version) = strings(spec.strs);
+    let pm = protocol_message(spec.pm, x, mat);
+    let signature = if spec.kind == 0 {
+        CertificateSignature::GenesisSignature(mat.gsig)
+    } else {
+        let comps = if spec.ext == 0 { [5, 100, 15] } else { [x, x, x] };
+        CertificateSignature::MultiSignature(set_variant(spec.kind, comps), mat.msigs[0].clone())
+    };
+    let (k, m) = if spec.ext == 0 { (5, 100) } else { (x, x) };
+    let mut c = Certificate {
+        hash: String::new(),
+        previous_hash,
+        epoch: Epoch(x),
+        metadata: CertificateMetadata::new(network, version, ProtocolParameters::new(k, m, PHI[spec.phi]), initiated_at, sealed_at, signer_list(spec.signers, x)),
+        signed_message: pm.compute_hash(),
+        protocol_message: pm,
+        aggregate_verification_key: mat.avks[0].clone(),
+        ancillary_prover_data: None,
+        ancillary_verifier_data: None,
+        signature,
+    };
+    c.hash = c.try_compute_hash().expect("hash of a grammar certificate");
+    c
+}
+
+fn grammar(thorough: bool) -> Vec<Spec> {
+    let mut out = vec![];
+    if thorough {
+        for kind in 0..N_KIND {
+            for ext in 0..EXT.len() {
+                for signers in 0..N_SIGNERS {
+                    for ts in 0..N_TS {
+                        for pm in 0..N_PM {
+                            for strs in 0..N_STRS {
+                                for phi in 0..PHI.len() {
+                                    out.push(Spec { kind, ext, signers, ts, pm, strs, phi });
+                                }
+                            }
+                        }
+                    }
+                }
+            }
+        }
+    } else {
+        // two full sub-products sharing the centre (structure and magnitudes; content shapes)
+        for kind in 0..N_KIND {
+            for ext in 0..3 {
+                for signers in 0..3 {
+                    for ts in 0..N_TS {
+                        out.push(Spec { kind, ext, signers, ts, pm: 0, strs: 0, phi: 0 });
+                    }
+                }
+            }
+        }
+        for kind in 0..N_KIND {
+            for pm in 0..N_PM {
+                for strs in 0..N_STRS {
+                    for phi in 0..4 {
+                        let s = Spec { kind, ext: 0, signers: 0, ts: 0, pm, strs, phi };
+                        if !out.contains(&s) {
+                            out.push(s);
+                        }
+                    }
+                }
+            }
+        }
+    }
+    out
+}
+
+// ------------------------------------------------------------------------------------------------
+// single-field changes
+// ------------------------------------------------------------------------------------------------
+
+fn string_changes(s: &str) -> Vec<(String, String)> {
+    let mut v: Vec<(String, String)> = vec![
+        ("append '0'".into(), format!("{s}0")),
+        ("prepend '0'".into(), format!("0{s}")),
+        ("empty".into(), String::new()),
+        ("upper case".into(), s.to_uppercase()),
+        ("append ' '".into(), format!("{s} ")),
+    ];
+    let chars: Vec<char> = s.chars().collect();
+    if !chars.is_empty() {
+        v.push(("delete last char".into(), chars[..chars.len() - 1].iter().collect()));
+        v.push(("delete first char".into(), chars[1..].iter().collect()));
+        let mut c = chars.clone();
+        let l = c.len() - 1;
+        c[l] = if c[l] == 'z' { 'y' } else { 'z' };
+        v.push(("replace last char".into(), c.iter().collect()));
+    } else {
+        v.push(("single char".into(), "a".into()));
+    }
+    let mut out: Vec<(String, String)> = vec![];
+    for (n, t) in v {
+        if t != s && !out.iter().any(|(_, o)| *o == t) {
+            out.push((n, t));
+        }
+    }
+    out
+}
+
+fn int_changes(x: u64) -> Vec<(String, u64)> {
+    let cands = [
+        ("+1", x.checked_add(1)),
+        ("-1", x.checked_sub(1)),
+        ("=0", Some(0)),
+        ("=2^64-1", Some(u64::MAX)),
+        ("^2^8", Some(x ^ (1 << 8))),
+        ("^2^32", Some(x ^ (1 << 32))),
+        ("^2^63", Some(x ^ (1 << 63))),
+    ];
+    let mut out: Vec<(String, u64)> = vec![];
+    for (n, c) in cands {
+        if let Some(c) = c
+            && c != x
+            && !out.iter().any(|(_, o)| *o == c)
+        {
+            out.push((n.to_string(), c));
+        }
+    }
+    out
+}
+
+fn time_changes(d: &DateTime<Utc>) -> Vec<(String, DateTime<Utc>)> {
+    let Some(n0) = ref_nanos(d) else { return vec![] };
+    let mut out = vec![];
+    for (name, delta) in [("+1ns", 1i64), ("-1ns", -1), ("+1s", 1_000_000_000), ("-1s", -1_000_000_000), ("+1ms", 1_000_000), ("+2^32ns", 1 << 32)] {
+        if let Some(t) = d.checked_add_signed(TimeDelta::nanoseconds(delta))
+            && let Some(n1) = ref_nanos(&t)
+            && n1 != n0
+        {
+            out.push((name.to_string(), t));
+        }
+    }
+    out
+}
+
+/// phi_f as a count of 2^-24 units under the four usual rounding conventions (scaling by 2^24 is exact)
+fn fixed_views(x: f64) -> [f64; 4] {
+    let y = x * 16777216.0;
+    [y.floor(), y.ceil(), y.round(), y.round_ties_even()]
+}
+
+/// Calls `f(field, description, required, changed certificate)` for every single-field change of `base`.
+/// `required` = the property demands a different hash for this change.
+fn for_each_change(base: &Certificate, mat: &Material, mut f: impl FnMut(&str, String, bool, Certificate)) {
+    // plain strings
+    for (n, s) in string_changes(&base.previous_hash) {
+        let mut c = base.clone();
+        c.previous_hash = s;
+        f("previous_hash", n, true, c);
+    }
+    for (n, s) in string_changes(&base.signed_message) {
+        let mut c = base.clone();
+        c.signed_message = s;
+        f("signed_message", n, true, c);
+    }
+    for (n, s) in string_changes(&base.metadata.network) {
+        let mut c = base.clone();
+        c.metadata.network = s;
+        f("metadata.network", n, true, c);
+    }
+    for (n, s) in string_changes(&base.metadata.protocol_version) {
+        let mut c = base.clone();
+        c.metadata.protocol_version = s;
+        f("metadata.protocol_version", n, true, c);
+    }
+    // integers
+    for (n, x) in int_changes(*base.epoch) {
+        let mut c = base.clone();
+        c.epoch = Epoch(x);
+        f("epoch", n, true, c);
+    }
+    for (n, x) in int_changes(base.metadata.protocol_parameters.k) {
+        let mut c = base.clone();
+        c.metadata.protocol_parameters.k = x;
+        f("metadata.protocol_parameters.k", n, true, c);
+    }
+    for (n, x) in int_changes(base.metadata.protocol_parameters.m) {
+        let mut c = base.clone();
+        c.metadata.protocol_parameters.m = x;
+        f("metadata.protocol_parameters.m", n, true, c);
+    }
+    // k and m exchanged is a two-field change: not enumerated.
+    // phi_f: a whole unit of the fixed-point precision must show, anything smaller need not
+    let phi = base.metadata.protocol_parameters.phi_f;
+    for (n, p, required) in [
+        ("+1 unit of U8F24", phi + UNIT, true),
+        ("-1 unit of U8F24", phi - UNIT, true),
+        ("+16 units of U8F24", phi + 16.0 * UNIT, true),
+        ("+1/2 unit", phi + UNIT / 2.0, false),
+        ("-1/2 unit", phi - UNIT / 2.0, false),
+        ("+1/4 unit", phi + UNIT / 4.0, false),
+        ("+1 ulp", f64::from_bits(phi.to_bits() + 1), false),
+        ("-1 ulp", f64::from_bits(phi.to_bits().wrapping_sub(1)), false),
+    ] {
+        // "differs at the fixed-point precision" is taken independently of the rounding convention:
+        // the two values must differ as 24-bit fractions under floor, ceiling, half-away and half-even
+        // (two exact rounding ties one unit apart coincide under half-even: nothing is demanded there)
+        let required = required && fixed_views(p).iter().zip(fixed_views(phi)).all(|(a, b)| *a != b);
+        if p >= 0.0 && p < 256.0 && p != phi && !p.is_nan() {
+            let mut c = base.clone();
+            c.metadata.protocol_parameters.phi_f = p;
+            f("metadata.protocol_parameters.phi_f", n.to_string(), required, c);
+        }
+    }
+    // timestamps
+    for (n, t) in time_changes(&base.metadata.initiated_at) {
+        let mut c = base.clone();
+        c.metadata.initiated_at = t;
+        f("metadata.initiated_at", n, true, c);
+    }
+    for (n, t) in time_changes(&base.metadata.sealed_at) {
+        let mut c = base.clone();
+        c.metadata.sealed_at = t;
+        f("metadata.sealed_at", n, true, c);
+    }
+    // signer list: per element fields, then list operations
+    let signers = &base.metadata.signers;
+    for i in 0..signers.len() {
+        for (n, s) in string_changes(&signers[i].party_id) {
+            let mut c = base.clone();
+            c.metadata.signers[i].party_id = s;
+            f("metadata.signers.party_id", format!("signer {i}: {n}"), true, c);
+        }
+        for (n, x) in int_changes(signers[i].stake) {
+            let mut c = base.clone();
+            c.metadata.signers[i].stake = x;
+            f("metadata.signers.stake", format!("signer {i}: {n}"), true, c);
+        }
+        let mut c = base.clone();
+        c.metadata.signers.remove(i);
+        f("metadata.signers", format!("remove signer {i}"), true, c);
+        if i + 1 < signers.len() && signers[i] != signers[i + 1] {
+            let mut c = base.clone();
+            c.metadata.signers.swap(i, i + 1);
+            f("metadata.signers", format!("swap signers {i},{}", i + 1), true, c);
+        }
+    }
+    if signers.len() >= 3 && signers[0] != signers[signers.len() - 1] {
+        let mut c = base.clone();
+        c.metadata.signers.rotate_left(1);
+        if c.metadata.signers != *signers {
+            f("metadata.signers", "rotate".to_string(), true, c);
+        }
+    }
+    for i in 0..=signers.len() {
+        let fresh = StakeDistributionParty { party_id: "q".to_string(), stake: 7 };
+        let mut c = base.clone();
+        c.metadata.signers.insert(i, fresh);
+        f("metadata.signers", format!("insert a new signer at {i}"), true, c);
+        if let Some(dup) = signers.get(i) {
+            let mut c = base.clone();
+            c.metadata.signers.insert(i, dup.clone());
+            f("metadata.signers", format!("duplicate signer {i}"), true, c);
+        }
+        let empty = StakeDistributionParty { party_id: String::new(), stake: 0 };
+        let mut c = base.clone();
+        c.metadata.signers.insert(i, empty);
+        f("metadata.signers", format!("insert an empty signer at {i}"), true, c);
+    }
+    // protocol message parts
+    for key in PART_KEYS {
+        match base.protocol_message.get_message_part(&key) {
+            Some(v) => {
+                for (n, s) in string_changes(v) {
+                    let mut c = base.clone();
+                    c.protocol_message.set_message_part(key, s);
+                    f("protocol_message.part-value", format!("{key}: {n}"), true, c);
+                }
+                let mut c = base.clone();
+                c.protocol_message.message_parts.remove(&key);
+                f("protocol_message.part-removed", format!("{key}"), true, c);
+            }
+            None => {
+                for v in ["1", "", H64A] {
+                    let mut c = base.clone();
+                    c.protocol_message.set_message_part(key, v.to_string());
+                    f("protocol_message.part-added", format!("{key} = {v:?}"), true, c);
+                }
+            }
+        }
+    }
+    // aggregate verification key
+    for (n, k) in &mat.avk_alts {
+        let mut c = base.clone();
+        c.aggregate_verification_key = k.clone();
+        f("aggregate_verification_key", n.clone(), true, c);
+    }
+    // signature, signed entity type
+    match &base.signature {
+        CertificateSignature::GenesisSignature(_) => {
+            for (n, g) in &mat.gsig_alts {
+                let mut c = base.clone();
+                c.signature = CertificateSignature::GenesisSignature(*g);
+                f("signature.genesis_signature", n.clone(), true, c);
+            }
+            let mut c = base.clone();
+            c.signature = CertificateSignature::MultiSignature(SignedEntityType::genesis(base.epoch), mat.msigs[0].clone());
+            f("signature.kind", "genesis signature replaced by a multi-signature".to_string(), true, c);
+        }
+        CertificateSignature::MultiSignature(set, sig) => {
+            for (n, s) in &mat.msig_alts {
+                let mut c = base.clone();
+                c.signature = CertificateSignature::MultiSignature(set.clone(), s.clone());
+                f("signature.multi_signature", n.clone(), true, c);
+            }
+            let mut c = base.clone();
+            c.signature = CertificateSignature::GenesisSignature(mat.gsig);
+            f("signature.kind", "multi-signature replaced by a genesis signature".to_string(), true, c);
+            let (variant, comps) = set_components(set);
+            for (i, x) in comps.iter().enumerate() {
+                for (n, y) in int_changes(*x) {
+                    let mut cc = [0u64; 3];
+                    cc[..comps.len()].copy_from_slice(&comps);
+                    cc[i] = y;
+                    let mut c = base.clone();
+                    c.signature = CertificateSignature::MultiSignature(set_variant(variant, cc), sig.clone());
+                    f("signed_entity_type.beacon", format!("component {i} {n}"), true, c);
+                }
+            }
+            for other in 1..=5 {
+                if other != variant {
+                    let mut cc = [0u64; 3];
+                    cc[..comps.len()].copy_from_slice(&comps);
+                    let new_set = set_variant(other, cc);
+                    let mut c = base.clone();
+                    c.signature = CertificateSignature::MultiSignature(new_set.clone(), sig.clone());
+                    f("signed_entity_type.variant", format!("{set:?} -> {new_set:?}"), true, c);
+                }
+            }
+        }
+    }
+}
+
+fn compute_hash(c: &Certificate) -> Option<String> {
+    match catch(|| c.try_compute_hash()) {
+        Ok(Ok(h)) => Some(h),
+        _ => None,
+    }
+}
+
+fn tamper_one(spec: Spec, mat: &Material) -> Report {
+    let mut rep = Report::new("exploration", "");
+    let base = build(spec, mat);
+    let h0 = base.hash.clone();
+    let mut first_sample = true;
+    for_each_change(&base, mat, |field, what, required, changed| {
+        rep.eval();
+        let Some(h1) = compute_hash(&changed) else {
+            rep.outcome("tamper:hash-not-computable");
+            return;
+        };
+        rep.nontrivial(&("tamper", spec, field, &what));
+        if h1 != h0 {
+            rep.outcome(if required { "tamper:hash-changed" } else { "tamper:phi-change-below-precision:hash-changed" });
+            if first_sample && spec == (Spec { kind: 3, ext: 0, signers: 0, ts: 0, pm: 0, strs: 0, phi: 0 }) && (field == "metadata.sealed_at" || field == "signed_entity_type.beacon") {
+                first_sample = field != "metadata.sealed_at";
+                rep.sample(json!({"part": "tamper", "spec": spec.to_json(), "field": field, "change": what, "hash": h0, "changed_hash": h1}));
+            }
+        } else if required {
+            rep.outcome("tamper:HASH-UNCHANGED");
+            rep.violation(
+                &format!("C04/hash-unchanged:{field}"),
+                format!(
+                    "two certificates that differ only in {field} ({what}) have the same hash {h0}; base certificate spec {:?}: epoch {}, signed entity type {:?}",
+                    spec, base.epoch, base.signed_entity_type()
+                ),
+                json!({"part": "tamper", "spec": spec.to_json(), "field": field, "change": what}),
+            );
+        } else {
+            rep.outcome("tamper:phi-change-below-precision:hash-unchanged");
+        }
+    });
+    rep
+}
+
+// ------------------------------------------------------------------------------------------------
+// protocol messages
+// ------------------------------------------------------------------------------------------------
+
+fn pm_part(rep: &mut Report, thorough: bool, mat: &Material) {
+    let avk_hex = mat.avks[0].to_json_hex().unwrap();
+    let mut alphabet: Vec<String> = ["0", "1", "12", "2", "a", "ab", "b", H64A].iter().map(|s| s.to_string()).collect();
+    if thorough {
+        for s in ["10", "c", "ca", "e", H64B, &H64A[..63], &avk_hex, &format!("{avk_hex}1")] {
+            alphabet.push(s.to_string());
+        }
+    }
+    let max_keys = 3;
+    let mut seen: HashMap<String, Vec<(usize, usize)>> = HashMap::new();
+    let mut total = 0u64;
+    let mut collisions = 0u64;
+    // all subsets of at most `max_keys` of the 12 keys, all value assignments
+    for mask in 0u32..(1 << 12) {
+        if mask.count_ones() as usize > max_keys {
+            continue;
+        }
+        let keys: Vec<usize> = (0..12).filter(|i| mask & (1 << i) != 0).collect();
+        let n = alphabet.len();
+        let combos = n.pow(keys.len() as u32);
+        for combo in 0..combos {
+            let mut m = ProtocolMessage::new();
+            let mut desc = vec![];
+            let mut c = combo;
+            for k in &keys {
+                let vi = c % n;
+                c /= n;
+                m.set_message_part(PART_KEYS[*k], alphabet[vi].clone());
+                desc.push((*k, vi));
+            }
+            let digest = m.compute_hash();
+            total += 1;
+            rep.eval();
+            if let Some(prev) = seen.get(&digest) {
+                if *prev != desc {
+                    collisions += 1;
+                    let show = |d: &Vec<(usize, usize)>| d.iter().map(|(k, v)| format!("{}={:?}", PART_KEYS[*k], alphabet[*v])).collect::<Vec<_>>().join(", ");
+                    rep.violation(
+                        "C04/protocol-message-digest-collision",
+                        format!("two different protocol messages over the honest value grammar share the digest {digest}: {{{}}} and {{{}}}", show(prev), show(&desc)),
+                        json!({"part": "pm", "a": show(prev), "b": show(&desc)}),
+                    );
+                }
+            } else {
+                seen.insert(digest, desc);
+            }
+        }
+    }
+    rep.outcome_n("pm:distinct-digest", seen.len() as u64);
+    rep.add_extra("pm_messages", total);
+    rep.add_extra("pm_distinct_digests", seen.len() as u64);
+    rep.add_extra("pm_collisions", collisions);
+    rep.extra("pm_value_alphabet", json!(alphabet.iter().map(|s| if s.len() > 70 { format!("<{} hex chars>", s.len()) } else { s.clone() }).collect::<Vec<_>>()));
+    for i in 0..seen.len().min(40_000) {
+        rep.nontrivial(&("pm", i));
+    }
+    // detector self-test, outside the honest grammar (values that spell a key name): the bucket
+    // comparison must see this well-known concatenation collision, otherwise it proves nothing
+    let mut a = ProtocolMessage::new();
+    a.set_message_part(ProtocolMessagePartKey::SnapshotDigest, "xcurrent_epoch5".to_string());
+    let mut b = ProtocolMessage::new();
+    b.set_message_part(ProtocolMessagePartKey::SnapshotDigest, "x".to_string());
+    b.set_message_part(ProtocolMessagePartKey::CurrentEpoch, "5".to_string());
+    if a == b || a.compute_hash() != b.compute_hash() {
+        rep.extra("pm_out_of_grammar_collision_observed", json!(false));
+    } else {
+        rep.extra("pm_out_of_grammar_collision_observed", json!(true));
+        rep.outcome("pm:out-of-grammar-collision(observation)");
+    }
+}
+
+// ------------------------------------------------------------------------------------------------
+// wire: JSON re-serialisations
+// ------------------------------------------------------------------------------------------------
+
+#[derive(Clone, Copy, Debug, PartialEq)]
+enum Order {
+    Sorted,
+    Reversed,
+    Rotated,
+}
+#[derive(Clone, Copy, Debug, PartialEq)]
+enum IntFmt {
+    Plain,
+    DotZero,
+    Exp,
+}
+#[derive(Clone, Copy, Debug, PartialEq)]
+enum FloatFmt {
+    Shortest,
+    Sci,
+    Digits17,
+    Exact,
+    IntegerIfWhole,
+}
+#[derive(Clone, Copy, Debug)]
+struct Style {
+    name: &'static str,
+    order: Order,
+    heavy_ws: bool,
+    int: IntFmt,
+    float: FloatFmt,
+}
+
+const STYLES: [Style; 9] = [
+    Style { name: "sorted keys", order: Order::Sorted, heavy_ws: false, int: IntFmt::Plain, float: FloatFmt::Shortest },
+    Style { name: "reversed keys, whitespace everywhere", order: Order::Reversed, heavy_ws: true, int: IntFmt::Plain, float: FloatFmt::Shortest },
+    Style { name: "rotated keys, floats in scientific notation", order: Order::Rotated, heavy_ws: false, int: IntFmt::Plain, float: FloatFmt::Sci },
+    Style { name: "floats with 18 significant digits", order: Order::Sorted, heavy_ws: false, int: IntFmt::Plain, float: FloatFmt::Digits17 },
+    Style { name: "floats as exact decimal expansion", order: Order::Reversed, heavy_ws: false, int: IntFmt::Plain, float: FloatFmt::Exact },
+    Style { name: "whole floats as integers", order: Order::Rotated, heavy_ws: true, int: IntFmt::Plain, float: FloatFmt::IntegerIfWhole },
+    Style { name: "integers as n.0", order: Order::Sorted, heavy_ws: false, int: IntFmt::DotZero, float: FloatFmt::Shortest },
+    Style { name: "integers as ne0", order: Order::Sorted, heavy_ws: false, int: IntFmt::Exp, float: FloatFmt::Shortest },
+    Style { name: "integers as ne0, reversed keys", order: Order::Reversed, heavy_ws: true, int: IntFmt::Exp, float: FloatFmt::Sci },
+];
+
+fn trim_float(mut s: String) -> String {
+    if s.contains('.') && !s.contains('e') {
+        while s.ends_with('0') {
+            s.pop();
+        }
+        if s.ends_with('.') {
+            s.push('0');
+        }
+    }
+    s
+}
+
+fn emit(v: &Value, st: &Style, out: &mut String) {
+    let ws = if st.heavy_ws { " \n\t\r " } else { "" };
+    match v {
+        Value::Null => out.push_str("null"),
+        Value::Bool(b) => out.push_str(if *b { "true" } else { "false" }),
+        Value::String(s) => out.push_str(&serde_json::to_string(s).unwrap()),
+        Value::Number(n) => {
+            if let Some(u) = n.as_u64() {
+                match st.int {
+                    IntFmt::Plain => out.push_str(&u.to_string()),
+                    IntFmt::DotZero => out.push_str(&format!("{u}.0")),
+                    IntFmt::Exp => out.push_str(&format!("{u}e0")),
+                }
+            } else if let Some(i) = n.as_i64() {
+                out.push_str(&i.to_string());
+            } else {
+                let f = n.as_f64().unwrap();
+                let s = match st.float {
+                    FloatFmt::Shortest => n.to_string(),
+                    FloatFmt::Sci => format!("{f:e}"),
+                    FloatFmt::Digits17 => format!("{f:.17e}"),
+                    FloatFmt::Exact => trim_float(format!("{f:.200}")),
+                    FloatFmt::IntegerIfWhole => {
+                        if f.fract() == 0.0 && f.abs() < 1e15 {
+                            format!("{}", f as i64)
+                        } else {
+                            n.to_string()
+                        }
+                    }
+                };
+                out.push_str(&s);
+            }
+        }
+        Value::Array(a) => {
+            out.push('[');
+            for (i, e) in a.iter().enumerate() {
+                if i > 0 {
+                    out.push(',');
+                }
+                out.push_str(ws);
+                emit(e, st, out);
+                out.push_str(ws);
+            }
+            out.push(']');
+        }
+        Value::Object(o) => {
+            let mut entries: Vec<(&String, &Value)> = o.iter().collect();
+            entries.sort_by(|a, b| a.0.cmp(b.0));
+            match st.order {
+                Order::Sorted => {}
+                Order::Reversed => entries.reverse(),
+                Order::Rotated => {
+                    if !entries.is_empty() {
+                        let n = entries.len();
+                        entries.rotate_left(n / 2 + 1 - (n % 2));
+                    }
+                }
+            }
+            out.push('{');
+            for (i, (k, e)) in entries.iter().enumerate() {
+                if i > 0 {
+                    out.push(',');
+                }
+                out.push_str(ws);
+                out.push_str(&serde_json::to_string(k).unwrap());
+                out.push_str(ws);
+                out.push(':');
+                out.push_str(ws);
+                emit(e, st, out);
+                out.push_str(ws);
+            }
+            out.push('}');
+        }
+    }
+}
+
+/// floats are left out of the emitter self-check: reading them back bit-exactly is the subject's business
+fn without_floats(v: &Value) -> Value {
+    match v {
+        Value::Number(n) if !n.is_u64() && !n.is_i64() => Value::Null,
+        Value::Array(a) => Value::Array(a.iter().map(without_floats).collect()),
+        Value::Object(o) => Value::Object(o.iter().map(|(k, e)| (k.clone(), without_floats(e))).collect()),
+        other => other.clone(),
+    }
+}
+
+/// every JSON text of one message: (style name, text, must parse)
+fn reserialisations(msg: &CertificateMessage, rep: &mut Report) -> Vec<(String, String, bool)> {
+    let mut out = vec![];
+    let canonical = serde_json::to_string(msg).expect("serialize message");
+    out.push(("serde_json::to_string".to_string(), canonical.clone(), true));
+    out.push(("serde_json::to_string_pretty".to_string(), serde_json::to_string_pretty(msg).unwrap(), true));
+    let value: Value = serde_json::to_value(msg).expect("message to value");
+    for st in STYLES.iter() {
+        let mut s = String::new();
+        emit(&value, st, &mut s);
+        let plain = st.int == IntFmt::Plain;
+        if plain && st.float == FloatFmt::Shortest {
+            // emitter self-check: the text denotes the same JSON document
+            match serde_json::from_str::<Value>(&s) {
+                Ok(back) if without_floats(&back) == without_floats(&value) => {}
+                _ => rep.machinery_error(format!("JSON emitter self-check failed for style {}", st.name)),
+            }
+        }
+        // integer re-formatting (5.0, 5e0) is only followed where serde accepts it
+        out.push((st.name.to_string(), s, plain));
+    }
+    out
+}
+
+/// the same message with every key in its *other* codec (observation only: the property speaks of
+/// the message the conversion itself produces)
+fn alternative_codecs(msg: &CertificateMessage) -> Option<CertificateMessage> {
+    let mut m = msg.clone();
+    let avk = Avk::try_from(m.aggregate_verification_key.as_str()).ok()?;
+    m.aggregate_verification_key = avk.to_bytes_hex().ok()?;
+    if !m.multi_signature.is_empty() {
+        let s = MSig::try_from(m.multi_signature.as_str()).ok()?;
+        m.multi_signature = s.to_bytes_hex().ok()?;
+    }
+    if !m.genesis_signature.is_empty() {
+        let s = GSig::try_from(m.genesis_signature.as_str()).ok()?;
+        m.genesis_signature = s.to_json_hex().ok()?;
+    }
+    Some(m)
+}
+
+struct Verify<'a> {
+    verifier: MithrilCertificateVerifier,
+    rt: tokio::runtime::Runtime,
+    _mat: &'a Material,
+}
+
+impl<'a> Verify<'a> {
+    fn new(mat: &'a Material) -> Self {
+        let logger = slog::Logger::root(slog::Discard, slog::o!());
+        let retriever = Arc::new(FakeCertificaterRetriever::from_certificates(&mat.chain));
+        let verifier = MithrilCertificateVerifier::new(logger, retriever, Arc::new(mat.genesis_verifier.clone()));
+        let rt = tokio::runtime::Builder::new_current_thread().build().expect("tokio runtime");
+        Verify { verifier, rt, _mat: mat }
+    }
+    /// Ok(previous hash or "-") / Err(())
+    fn outcome(&self, c: &Certificate) -> Result<String, String> {
+        match catch(|| self.rt.block_on(self.verifier.verify_certificate(c))) {
+            Ok(Ok(prev)) => Ok(prev.map(|p| p.hash).unwrap_or_else(|| "-".to_string())),
+            Ok(Err(e)) => Err(format!("{e:#}").chars().take(160).collect()),
+            Err(p) => Err(format!("panic: {p}")),
+        }
+    }
+}
+
+/// one certificate through every re-serialisation. `verify`: also compare `verify_certificate`.
+fn wire_one(label: &Value, cert: &Certificate, verify: Option<&Verify>, rep: &mut Report) {
+    let msg: CertificateMessage = match catch(|| CertificateMessage::try_from(cert.clone())) {
+        Ok(Ok(m)) => m,
+        other => {
+            rep.eval();
+            rep.outcome("wire:CONVERSION-FAILED");
+            rep.violation(
+                "C04/wire:certificate-to-message-fails",
+                format!("certificate {label} cannot be converted to its message: {:?}", other.map(|r| r.map(|_| ()).map_err(|e| format!("{e:#}")))),
+                json!({"part": "wire", "case": label}),
+            );
+            return;
+        }
+    };
+    let h_carried = cert.hash.clone();
+    let h_computed = compute_hash(cert);
+    let direct = verify.map(|v| v.outcome(cert));
+    if label["tamper"] == "signed entity type variant" && label["hash"] == "stale" {
+        rep.add_extra(
+            if matches!(direct, Some(Ok(_))) { "signed_variant_swap_with_untouched_hash_accepted_by_verify_certificate" } else { "signed_variant_swap_with_untouched_hash_rejected_by_verify_certificate" },
+            1,
+        );
+    }
+    let mut texts = reserialisations(&msg, rep);
+    let n_property = texts.len();
+    if let Some(alt) = alternative_codecs(&msg) {
+        texts.push(("keys in their other codec (observation)".to_string(), serde_json::to_string(&alt).unwrap(), false));
+    }
+    for (i, (style, text, must_parse)) in texts.iter().enumerate() {
+        rep.eval();
+        let observation_only = i >= n_property;
+        let back = catch(|| -> Result<Certificate, String> {
+            let m: CertificateMessage = serde_json::from_str(text).map_err(|e| format!("json: {e}"))?;
+            Certificate::try_from(m).map_err(|e| format!("conversion: {e:#}"))
+        });
+        let back = match back {
+            Ok(Ok(c)) => c,
+            Ok(Err(e)) | Err(e) => {
+                if *must_parse {
+                    rep.outcome("wire:REJECTED");
+                    rep.violation(
+                        "C04/wire:reserialisation-rejected",
+                        format!("certificate {label}: its message re-serialised as '{style}' is not read back: {e}"),
+                        json!({"part": "wire", "case": label, "style": style}),
+                    );
+                } else if observation_only {
+                    rep.outcome("wire:other-codec:rejected(observation)");
+                } else {
+                    rep.outcome("wire:number-format-not-accepted-by-serde");
+                }
+                continue;
+            }
+        };
+        rep.nontrivial(&("wire", label.to_string(), style));
+        let same_hash = back.hash == h_carried && compute_hash(&back) == h_computed;
+        let same_signed = back.signed_message == cert.signed_message && back.protocol_message.compute_hash() == cert.protocol_message.compute_hash();
+        let via_wire = verify.map(|v| v.outcome(&back));
+        let same_outcome = match (&direct, &via_wire) {
+            (Some(Ok(a)), Some(Ok(b))) => a == b,
+            (Some(Err(_)), Some(Err(_))) => true,
+            (None, None) => true,
+            _ => false,
+        };
+        if observation_only {
+            rep.outcome(if same_hash && same_signed && same_outcome { "wire:other-codec:same(observation)" } else { "wire:other-codec:DIFFERENT(observation)" });
+            continue;
+        }
+        if same_hash && same_signed && same_outcome {
+            match &direct {
+                Some(Ok(_)) => rep.outcome("wire:same,verified-ok-both"),
+                Some(Err(_)) => rep.outcome("wire:same,rejected-both"),
+                None => rep.outcome("wire:same"),
+            }
+            continue;
+        }
+        let phi0 = cert.metadata.protocol_parameters.phi_f;
+        let phi1 = back.metadata.protocol_parameters.phi_f;
+        // the float root cause gets its own key only when restoring phi_f alone restores the hash
+        let phi_is_the_cause = phi0.to_bits() != phi1.to_bits() && {
+            let mut fixed = back.clone();
+            fixed.metadata.protocol_parameters.phi_f = phi0;
+            compute_hash(&fixed) == h_computed
+        };
+        let key = if !same_hash && phi_is_the_cause {
+            "C04/wire:phi_f-not-read-back-exactly"
+        } else if !same_hash {
+            "C04/wire:hash-changed"
+        } else if !same_signed {
+            "C04/wire:signed-message-changed"
+        } else {
+            "C04/wire:verification-outcome-changed"
+        };
+        rep.outcome("wire:DIFFERENT");
+        rep.violation(
+            key,
+            format!(
+                "certificate {label} -> message -> JSON ('{style}') -> message -> certificate: carried hash {} -> {}, recomputed hash {:?} -> {:?}, signed message {} -> {}, phi_f {:?} -> {:?}, verify_certificate {:?} -> {:?}",
+                h_carried, back.hash, h_computed, compute_hash(&back), cert.signed_message, back.signed_message, phi0, phi1, direct, via_wire
+            ),
+            json!({"part": "wire", "case": label, "style": style}),
+        );
+    }
+}
+
+/// the really signed certificates and single-field tamperings of them (hash left stale / recomputed)
+fn signed_cases(mat: &Material) -> Vec<(Value, Certificate)> {
+    let mut out = vec![];
+    for (i, c) in mat.chain.iter().enumerate() {
+        out.push((json!({"signed": i, "tamper": "none"}), c.clone()));
+        let other = &mat.chain[(i + 1) % mat.chain.len()];
+        let mut tampers: Vec<(&str, Certificate)> = vec![];
+        let mut push = |n: &'static str, f: &dyn Fn(&mut Certificate)| {
+            let mut t = c.clone();
+            f(&mut t);
+            tampers.push((n, t));
+        };
+        push("epoch+1", &|t| t.epoch = t.epoch + 1);
+        push("network", &|t| t.metadata.network.push('x'));
+        push("k+1", &|t| t.metadata.protocol_parameters.k += 1);
+        push("sealed_at+1ns", &|t| t.metadata.sealed_at = t.metadata.sealed_at + TimeDelta::nanoseconds(1));
+        push("signer stake+1", &|t| {
+            if let Some(s) = t.metadata.signers.first_mut() {
+                s.stake += 1
+            } else {
+                t.metadata.signers.push(StakeDistributionParty { party_id: "q".into(), stake: 1 })
+            }
+        });
+        push("message part", &|t| {
+            t.protocol_message.set_message_part(ProtocolMessagePartKey::SnapshotDigest, H64A.to_string());
+        });
+        push("signed_message", &|t| t.signed_message = H64A.to_string());
+        push("previous_hash", &|t| t.previous_hash = other.hash.clone());
+        push("aggregate_verification_key", &|t| t.aggregate_verification_key = other.aggregate_verification_key.clone());
+        push("signature", &|t| {
+            t.signature = match (&t.signature, &other.signature) {
+                (CertificateSignature::MultiSignature(set, _), CertificateSignature::MultiSignature(_, s)) => CertificateSignature::MultiSignature(set.clone(), s.clone()),
+                (CertificateSignature::MultiSignature(set, _), _) => CertificateSignature::MultiSignature(set.clone(), mat.msig_alts[1 % mat.msig_alts.len()].1.clone()),
+                (CertificateSignature::GenesisSignature(_), _) => CertificateSignature::GenesisSignature(mat.gsig_alts[0].1),
+            }
+        });
+        push("signed entity type variant", &|t| {
+            if let CertificateSignature::MultiSignature(set, s) = &t.signature {
+                let (v, comps) = set_components(set);
+                let mut cc = [0u64; 3];
+                cc[..comps.len()].copy_from_slice(&comps);
+                let w = match v {
+                    1 => 2,
+                    2 => 1,
+                    3 => 4,
+                    4 => 3,
+                    _ => 4,
+                };
+                t.signature = CertificateSignature::MultiSignature(set_variant(w, cc), s.clone());
+            }
+        });
+        for (n, t) in tampers {
+            if n == "signed entity type variant" && c.is_genesis() {
+                continue; // a genesis certificate carries no signed entity type
+            }
+            out.push((json!({"signed": i, "tamper": n, "hash": "stale"}), t.clone()));
+            let mut r = t;
+            if let Some(h) = compute_hash(&r) {
+                r.hash = h;
+            }
+            out.push((json!({"signed": i, "tamper": n, "hash": "recomputed"}), r));
+        }
+    }
+    out
+}
+
+// ------------------------------------------------------------------------------------------------
+// phi_f rounding boundaries through JSON
+// ------------------------------------------------------------------------------------------------
+
+const PHI_BLOCK: u64 = 1 << 12;
+
+fn phi_roundtrip(v: f64) -> Result<(f64, bool), String> {
+    let p = ProtocolParameters::new(5, 100, v);
+    let text = serde_json::to_string(&p).map_err(|e| e.to_string())?;
+    let q: ProtocolParameters = serde_json::from_str(&text).map_err(|e| e.to_string())?;
+    let same_hash = q.phi_f.to_bits() == v.to_bits() || q.compute_hash() == p.compute_hash();
+    Ok((q.phi_f, same_hash))
+}
+
+fn phi_block(block: u64, offsets: &[i64]) -> Report {
+    let mut rep = Report::new("exploration", "");
+    let mut inexact = 0u64;
+    let mut changed = 0u64;
+    let mut evals = 0u64;
+    for n in block * PHI_BLOCK..(block + 1) * PHI_BLOCK {
+        let tie = (n as f64 + 0.5) * UNIT; // exact: n + 0.5 has at most 25 significant bits
+        for d in offsets {
+            let v = f64::from_bits((tie.to_bits() as i64 + d) as u64);
+            evals += 1;
+            match phi_roundtrip(v) {
+                Ok((back, same_hash)) => {
+                    if back.to_bits() != v.to_bits() {
+                        inexact += 1;
+                    }
+                    if !same_hash {
+                        changed += 1;
+                        let decile = ((v * 10.0) as u64).min(9);
+                        rep.add_extra(&format!("phi_values_whose_hash_changes_in_[0.{decile},{})", if decile == 9 { "1.0".to_string() } else { format!("0.{}", decile + 1) }), 1);
+                        rep.violation(
+                            "C04/wire:phi_f-not-read-back-exactly",
+                            format!(
+                                "protocol parameters with phi_f = {v:?} (bits {:#018x}; {} ulp from the U8F24 rounding boundary ({n}+1/2)/2^24) are written to JSON as {v:?} and read back as {back:?}: the parameter hash - and with it the certificate hash - changes",
+                                v.to_bits(),
+                                d
+                            ),
+                            json!({"part": "phi", "phi_f_bits": format!("{:#018x}", v.to_bits()), "phi_f": format!("{v:?}"), "read_back": format!("{back:?}")}),
+                        );
+                    }
+                }
+                Err(e) => {
+                    rep.violation("C04/wire:phi_f-json-fails", format!("phi_f {v:?}: {e}"), json!({"part": "phi", "phi_f_bits": format!("{:#018x}", v.to_bits())}));
+                }
+            }
+        }
+    }
+    rep.evaluations += evals;
+    rep.add_extra("phi_values", evals);
+    rep.add_extra("phi_values_not_read_back_bit_exactly", inexact);
+    rep.add_extra("phi_values_whose_hash_changes", changed);
+    rep.outcome_n("phi:same-hash", evals - changed);
+    if changed > 0 {
+        rep.outcome_n("phi:HASH-CHANGED", changed);
+    }
+    if inexact > 0 {
+        rep.nontrivial(&("phi-block-with-inexact-parse", block));
+    }
+    rep
+}
+
+// ------------------------------------------------------------------------------------------------
+
+fn replay(ctx: &Ctx, mat: &Material, rep: &mut Report) {
+    let v = mc_core::load_replay(ctx.replay.as_ref().unwrap());
+    match v["part"].as_str().unwrap_or("") {
+        "tamper" => {
+            let spec = Spec::from_json(&v["spec"]);
+            rep.merge(tamper_one(spec, mat));
+        }
+        "wire" => {
+            let case = &v["case"];
+            if case.get("signed").is_some() {
+                let verify = Verify::new(mat);
+                for (label, cert) in signed_cases(mat) {
+                    if label == *case {
+                        wire_one(&label, &cert, Some(&verify), rep);
+                    }
+                }
+            } else {
+                let spec = Spec::from_json(&case["spec"]);
+                wire_one(case, &build(spec, mat), None, rep);
+            }
+        }
+        "phi" => {
+            let bits = u64::from_str_radix(v["phi_f_bits"].as_str().unwrap_or("0x0").trim_start_matches("0x"), 16).unwrap_or(0);
+            let phi = f64::from_bits(bits);
+            // the whole certificate, not only the parameters
+            let mut c = build(Spec { kind: 3, ext: 0, signers: 0, ts: 0, pm: 0, strs: 0, phi: 0 }, mat);
+            c.metadata.protocol_parameters.phi_f = phi;
+            c.hash = c.try_compute_hash().unwrap();
+            wire_one(&json!({"phi_f_bits": format!("{bits:#018x}")}), &c, None, rep);
+            rep.eval();
+            if let Ok((back, same)) = phi_roundtrip(phi)
+                && !same
+            {
+                rep.violation("C04/wire:phi_f-not-read-back-exactly", format!("phi_f {phi:?} is read back as {back:?} and hashes differently"), v.clone());
+            }
+        }
+        "pm" => pm_part(rep, ctx.tier == mc_core::Tier::Thorough, mat),
+        other => rep.machinery_error(format!("unknown replay part {other:?}")),
+    }
+    rep.nontrivial(&"replay-0");
+    rep.nontrivial(&"replay-1");
+}
+
+pub fn run(ctx: &Ctx) -> ! {
+    let thorough = ctx.tier == mc_core::Tier::Thorough;
+    let mut rep = Report::new(
+        "exploration",
+        "tamper: every certificate of the grammar (genesis/5 signed entity types x u64 magnitudes x signer lists x timestamps x \
+         message shapes x strings x phi_f) x every single-field change of the per-field alphabets is hashed by Certificate::try_compute_hash \
+         (non-trivial = the changed certificate could be built and hashed); pm: every protocol message over <=3 of the 12 keys and the honest \
+         value alphabet is digested and bucketed; wire: every grammar certificate, every certificate of a really signed chain and single-field \
+         tamperings of those go through CertificateMessage and every JSON re-serialisation back to a certificate (non-trivial = read back); \
+         phi: every U8F24 rounding boundary in [0,1) and its f64 neighbours goes through ProtocolParameters -> JSON -> back; \
+         distinct = distinct (part, certificate, change | style) cases",
+    );
+    rep.max_samples = 8;
+    let mat = build_material();
+    rep.assume("ancillary prover/verifier data cannot be present in this build: without the cargo feature future_snark both types are enums without variants, so only 'absent' is enumerated");
+    rep.assume("timestamps are compared as 64-bit nanosecond counts (a leap-second representation equals the instant it denotes)");
+    rep.assume("a change of phi_f is required to change the hash only when it is a whole unit of U8F24 (2^-24); smaller changes are evaluated and reported as observations");
+    rep.assume("re-serialisations that write integers as 5.0 / 5e0 are followed only where serde accepts them; string escaping variants and alternative key codecs are not demanded by the property (the latter are reported as observations)");
+    rep.assume("honest protocol-message values are hex strings and decimal numbers; values that spell key names are outside the property (one such collision is shown as a detector self-test)");
+    rep.assume("trusted: sha2, chrono, hex, serde_json as a JSON *writer* of the harness-side emitter (self-checked by reading the text back as a JSON value)");
+
+    if ctx.replay.is_some() {
+        replay(ctx, &mat, &mut rep);
+        rep.finish(ctx);
+    }
+
+    // ---- tamper ----
+    let specs = grammar(thorough);
+    rep.extra("grammar_certificates", json!(specs.len()));
+    rep.extra("real_signed_chain", json!({"certificates": mat.chain.len(), "distinct_avks": mat.avks.len(), "avk_changes": mat.avk_alts.len(), "multi_signature_changes": mat.msig_alts.len(), "genesis_signature_changes": mat.gsig_alts.len()}));
+    let parts = par_map(&specs, ctx.threads(), |_, s| tamper_one(*s, &mat));
+    let before = rep.evaluations;
+    for p in parts {
+        rep.merge(p);
+    }
+    rep.extra("tamper_hash_comparisons", json!(rep.evaluations - before));
+
+    // ---- protocol messages ----
+    let before = rep.evaluations;
+    pm_part(&mut rep, thorough, &mat);
+    rep.extra("pm_evaluations", json!(rep.evaluations - before));
+
+    // ---- wire ----
+    let before = rep.evaluations;
+    let parts = par_map(&specs, ctx.threads(), |_, s| {
+        let mut r = Report::new("exploration", "");
+        let c = build(*s, &mat);
+        wire_one(&json!({"spec": s.to_json()}), &c, None, &mut r);
+        r
+    });
+    for p in parts {
+        rep.merge(p);
+    }
+    let signed = signed_cases(&mat);
+    rep.extra("wire_signed_cases", json!(signed.len()));
+    let chunks: Vec<&[(Value, Certificate)]> = signed.chunks(8).collect();
+    let parts = par_map(&chunks, ctx.threads(), |_, chunk| {
+        let mut r = Report::new("exploration", "");
+        let verify = Verify::new(&mat);
+        for (label, cert) in chunk.iter() {
+            wire_one(label, cert, Some(&verify), &mut r);
+        }
+        r
+    });
+    for p in parts {
+        rep.merge(p);
+    }
+    rep.extra("wire_evaluations", json!(rep.evaluations - before));
+    rep.extra("wire_styles", json!(STYLES.iter().map(|s| s.name).collect::<Vec<_>>()));
+    if let Some((label, c)) = signed.first() {
+        let m: CertificateMessage = c.clone().try_into().unwrap();
+        let mut s = String::new();
+        emit(&serde_json::to_value(&m).unwrap(), &STYLES[2], &mut s);
+        rep.sample(json!({"part": "wire", "case": label, "style": STYLES[2].name, "json_prefix": s.chars().take(300).collect::<String>()}));
+    }
+
+    // ---- phi ----
+    let offsets: Vec<i64> = if thorough { vec![-3, -2, -1, 0, 1, 2, 3] } else { vec![-1, 0, 1] };
+    let blocks: Vec<u64> = (0..(1u64 << 24) / PHI_BLOCK).collect();
+    rep.extra("phi_boundaries", json!({"n_from": 0, "n_to_exclusive": 1u64 << 24, "ulp_offsets": offsets}));
+    let parts = par_map(&blocks, ctx.threads(), |_, b| phi_block(*b, &offsets));
+    for p in parts {
+        rep.merge(p);
+    }
+    // the first affected value at or above a few everyday magnitudes, as samples
+    for start in [0.05f64, 0.2, 0.65] {
+        let n0 = (start / UNIT) as u64;
+        'search: for n in n0..n0 + 100_000 {
+            let tie = (n as f64 + 0.5) * UNIT;
+            for d in &offsets {
+                let v = f64::from_bits((tie.to_bits() as i64 + d) as u64);
+                if let Ok((back, false)) = phi_roundtrip(v) {
+                    rep.max_samples += 1;
+                    rep.sample(json!({"part": "phi", "first_affected_value_at_or_above": start, "phi_f": format!("{v:?}"), "phi_f_bits": format!("{:#018x}", v.to_bits()), "read_back": format!("{back:?}"), "ulp_from_boundary": d, "boundary_n": n}));
+                    break 'search;
+                }
+            }
+        }
+    }
+    rep.finish(ctx)
 }
